@@ -136,7 +136,7 @@ def run_c12(tier, seed):
                 ops += ["S %d.0" % rng.randrange(U) for _ in range(5)] + ["C %d.0 -1 0" % rng.randrange(U)]
                 if order > 2:
                     ops += ["D %d.0" % rng.randrange(U) for _ in range(10)] + ["C 0.0 -1 0"]
-                use_cases.append(dict(id="o%d-%s" % (order, typ), type=typ, order=order, keys=keys, ops=ops, noshrink=True, nodump=(e > 7)))
+                use_cases.append(dict(id="o%d-%s" % (order, typ), type=typ, order=order, keys=keys, ops=ops, noshrink=True, nodump=(e > 7), nomodel=(e > 12)))
         rc = props_seq.run_seq_property(pid, tier, seed, extra_cases=use_cases, ncases=0, write=False)
         seq = dict(props_seq.LAST)
         # two trees from one call site mutated alternately (pairs mode)
@@ -170,7 +170,7 @@ def run_c12(tier, seed):
                    orders_validated=len(orders), exhaustive=True,
                    exhaustive_scope="order validation: every int in [-70000,70000], 2^n+d for n<=62,|d|<=16, -2^n+-2, MinInt64, MaxInt64; six constructors each (construction skipped above 2^20, checkOrder consulted)",
                    validation_mismatches=len(mism), validation_monitor_failures=len(monv),
-                   construction_cases=len(use_cases), independent_tree_groups=len(pair_cases) // 3, pair_mismatches=len(pair_mm),
+                   construction_cases=len(use_cases), construction_cases_monitor_only=sum(1 for c in use_cases if c.get("nomodel")), independent_tree_groups=len(pair_cases) // 3, pair_mismatches=len(pair_mm),
                    evaluations=len(orders) + cov.get("evaluations", 0),
                    explanation="independence of two trees is a property of Go aliasing that an immutable model cannot express: tied by correspondence only (pairs mode)")
         lvl = "proof" if names and len(done) == len(names) else "other"
